@@ -106,7 +106,10 @@ class WriteToConn(TextIO):
 
     def write(self, output: str) -> int:
         resp: dict[str, Any] = {self.output_key: output}
-        send(self.server, resp)
+        try:
+            send(self.server, resp)
+        except OSError:
+            pass  # Maybe the client hung up; this output is only a convenience for it
         return len(output)
 
     def writable(self) -> bool:
